@@ -52,10 +52,13 @@ func (c *skCtx) unknown(n ast.Node) string { return ".unknown " + leanStr(c.src(
 var knownFields = map[string]bool{"Tag": true, "Timestamp": true, "Record": true, "Options": true, "Entries": true, "EventStream": true,
 	"MessageType": true, "ClientHostname": true, "SharedKeySalt": true, "SharedKeyHexDigest": true, "Username": true, "Password": true,
 	"AuthResult": true, "Reason": true, "ServerHostname": true, "Nonce": true, "Auth": true, "Keepalive": true, "Ack": true,
-	"Options.Nonce": true, "Options.Auth": true, "Options.Keepalive": true}
+	"Options.Nonce": true, "Options.Auth": true, "Options.Keepalive": true, "Size": true, "Chunk": true, "Compressed": true, "*Size": true}
 
 func fld(name string) string {
 	if knownFields[name] {
+		if name == "*Size" {
+			return ".SizeDeref"
+		}
 		return "." + strings.ReplaceAll(name, ".", "")
 	}
 	return "(.other " + leanStr(name) + ")"
@@ -133,13 +136,15 @@ func (c *skCtx) primCall(e ast.Expr) (prim string, dst string, ok bool) {
 			return "", "", false
 		}
 		table = map[string]string{"ReadArrayHeader": ".arrayHeader", "ReadString": ".str", "ReadInt64": ".int64", "ReadIntf": ".intf",
-			"ReadExtension": ".eventTime", "ReadBytes": ".bin", "ReadNil": ".nil", "ReadBool": ".bool"}
+			"ReadExtension": ".eventTime", "ReadBytes": ".bin", "ReadNil": ".nil", "ReadBool": ".bool", "ReadMapHeader": ".mapHeader",
+			"ReadInt": ".int64", "Skip": ".skip"}
 	} else {
 		if !isIdent(se.X, "msgp") {
 			return "", "", false
 		}
 		table = map[string]string{"ReadArrayHeaderBytes": ".arrayHeader", "ReadStringBytes": ".str", "ReadInt64Bytes": ".int64",
-			"ReadIntfBytes": ".intf", "ReadExtensionBytes": ".eventTime", "ReadBytesBytes": ".bin", "ReadNilBytes": ".nil", "ReadBoolBytes": ".bool"}
+			"ReadIntfBytes": ".intf", "ReadExtensionBytes": ".eventTime", "ReadBytesBytes": ".bin", "ReadNilBytes": ".nil", "ReadBoolBytes": ".bool",
+			"ReadMapHeaderBytes": ".mapHeader", "ReadIntBytes": ".int64", "Skip": ".skip"}
 		if len(args) == 0 || !isIdent(args[0], c.in) {
 			return "", "", false
 		}
@@ -207,6 +212,11 @@ func (c *skCtx) lhsDst(lhs []ast.Expr, tok token.Token) (dst string, ok bool) {
 	}
 	if f, isF := c.recvField(lhs[0]); isF {
 		return f, true
+	}
+	if st, isSt := lhs[0].(*ast.StarExpr); isSt { // *recv.Field = …
+		if f, isF := c.recvField(st.X); isF && strings.HasPrefix(strings.TrimSpace(c.ftypes[f]), "*") {
+			return "*" + f, true
+		}
 	}
 	return "", false
 }
@@ -298,7 +308,10 @@ func (c *skCtx) readStmt(as *ast.AssignStmt) (string, bool) {
 		dst = cdst
 	}
 	if dst == "" {
-		return "", false // a value read and thrown away is not one of the shapes
+		if prim == ".nil" || prim == ".skip" {
+			return fmt.Sprintf(".read .none %s", prim), true
+		}
+		return "", false // any other value read and thrown away is not one of the shapes
 	}
 	if dst == "sz" {
 		return fmt.Sprintf(".read .sz %s", prim), true
@@ -369,6 +382,9 @@ func (c *skCtx) block(ss []ast.Stmt) []string {
 				out = append(out, c.unknown(s))
 			}
 		case *ast.AssignStmt:
+			if len(st.Lhs) == 1 && len(st.Rhs) == 1 && isIdent(st.Lhs[0], "_") && isIdent(st.Rhs[0], "field") {
+				continue // `_ = field`: keeps the compiler quiet about an unused variable
+			}
 			// x, err := prim(); if err != nil { return …err… }
 			if r, ok := c.readStmt(st); ok && i+1 < len(ss) {
 				if nx, isIf := ss[i+1].(*ast.IfStmt); isIf && nx.Init == nil && nx.Else == nil && isErrNotNil(nx.Cond) && c.errBody(nx.Body) {
@@ -405,6 +421,10 @@ func (c *skCtx) block(ss []ast.Stmt) []string {
 						v = ".newOptions"
 					case "EntryList{}":
 						v = ".emptyEntryList"
+					case "new(int)":
+						v = ".newInt"
+					case "new(HeloOpts)":
+						v = ".newHeloOpts"
 					}
 					out = append(out, fmt.Sprintf(".set %s %s", fld(f), v))
 					continue
@@ -413,8 +433,23 @@ func (c *skCtx) block(ss []ast.Stmt) []string {
 			out = append(out, c.unknown(s))
 		case *ast.IfStmt:
 			if st.Else != nil {
+				// if msgp.IsNil(bts) { … } else { … } / if dc.IsNil() { … } else { … }
+				eb, isBlock := st.Else.(*ast.BlockStmt)
+				call, isCall := st.Cond.(*ast.CallExpr)
+				isNilTest := isCall && ((!c.stream && isSel(call.Fun, "msgp", "IsNil") && len(call.Args) == 1 && isIdent(call.Args[0], c.in)) ||
+					(c.stream && isSel(call.Fun, c.in, "IsNil") && len(call.Args) == 0))
+				if st.Init == nil && isBlock && isNilTest {
+					out = append(out, ".iteElse .nextNil ["+strings.Join(c.inner().block(st.Body.List), ", ")+"] ["+strings.Join(c.inner().block(eb.List), ", ")+"]")
+					continue
+				}
 				out = append(out, c.unknown(s))
 				continue
+			}
+			if be, isBe := st.Cond.(*ast.BinaryExpr); isBe && st.Init == nil && be.Op == token.EQL && isIdent(be.Y, "nil") {
+				if f, isF := c.recvField(be.X); isF && strings.HasPrefix(strings.TrimSpace(c.ftypes[f]), "*") {
+					out = append(out, ".ite (.fieldNil "+fld(f)+") ["+strings.Join(c.inner().block(st.Body.List), ", ")+"]")
+					continue
+				}
 			}
 			if as, ok := st.Init.(*ast.AssignStmt); ok {
 				// if dst, bits, err = prim(bits); err != nil { return bits, …err… }
@@ -455,6 +490,8 @@ func (c *skCtx) block(ss []ast.Stmt) []string {
 				continue
 			}
 			out = append(out, c.unknown(s))
+		case *ast.ForStmt:
+			out = append(out, c.mapLoop(st))
 		case *ast.ReturnStmt:
 			c2 := *c
 			c2.last = i == len(ss)-1
@@ -464,6 +501,75 @@ func (c *skCtx) block(ss []ast.Stmt) []string {
 		}
 	}
 	return out
+}
+
+// mapLoop: `for zbN > 0 { zbN--; field, [bts,] err = <map key>; <check>; switch msgp.UnsafeString(field) { case "k": …; default: … } }`
+func (c *skCtx) mapLoop(f *ast.ForStmt) string {
+	cond, ok := f.Cond.(*ast.BinaryExpr)
+	if f.Init != nil || f.Post != nil || !ok || cond.Op != token.GTR || !isSzVar(cond.X) || len(f.Body.List) != 4 {
+		return c.unknown(f)
+	}
+	if lit, isLit := cond.Y.(*ast.BasicLit); !isLit || lit.Value != "0" {
+		return c.unknown(f)
+	}
+	cnt := cond.X.(*ast.Ident).Name
+	dec, ok := f.Body.List[0].(*ast.IncDecStmt)
+	if !ok || dec.Tok != token.DEC || !isIdent(dec.X, cnt) {
+		return c.unknown(f)
+	}
+	key, ok := f.Body.List[1].(*ast.AssignStmt)
+	if !ok || len(key.Rhs) != 1 || key.Tok != token.ASSIGN || !isIdent(key.Lhs[0], "field") || !isIdent(key.Lhs[len(key.Lhs)-1], "err") {
+		return c.unknown(f)
+	}
+	kc, ok := key.Rhs[0].(*ast.CallExpr)
+	if !ok {
+		return c.unknown(f)
+	}
+	if c.stream {
+		if len(key.Lhs) != 2 || !isSel(kc.Fun, c.in, "ReadMapKeyPtr") || len(kc.Args) != 0 {
+			return c.unknown(f)
+		}
+	} else if len(key.Lhs) != 3 || !isIdent(key.Lhs[1], c.in) || !isSel(kc.Fun, "msgp", "ReadMapKeyZC") || len(kc.Args) != 1 || !isIdent(kc.Args[0], c.in) {
+		return c.unknown(f)
+	}
+	chk, ok := f.Body.List[2].(*ast.IfStmt)
+	if !ok || chk.Init != nil || chk.Else != nil || !isErrNotNil(chk.Cond) || !c.errBody(chk.Body) {
+		return c.unknown(f)
+	}
+	sw, ok := f.Body.List[3].(*ast.SwitchStmt)
+	if !ok || sw.Init != nil {
+		return c.unknown(f)
+	}
+	tag, ok := sw.Tag.(*ast.CallExpr)
+	if !ok || !isSel(tag.Fun, "msgp", "UnsafeString") || len(tag.Args) != 1 || !isIdent(tag.Args[0], "field") {
+		return c.unknown(f)
+	}
+	var cases []string
+	for i, cl := range sw.Body.List {
+		cc := cl.(*ast.CaseClause)
+		body := strings.Join(c.inner().block(cc.Body), ", ")
+		if cc.List == nil {
+			if i != len(sw.Body.List)-1 {
+				return c.unknown(f) // a default that is not the last clause
+			}
+			cases = append(cases, ".dflt ["+body+"]")
+			continue
+		}
+		bl, isBl := cc.List[0].(*ast.BasicLit)
+		if len(cc.List) != 1 || !isBl || bl.Kind != token.STRING {
+			return c.unknown(f)
+		}
+		k, err := strconv.Unquote(bl.Value)
+		if err != nil {
+			return c.unknown(f)
+		}
+		bs := make([]string, len(k))
+		for j := 0; j < len(k); j++ {
+			bs[j] = fmt.Sprint(k[j])
+		}
+		cases = append(cases, fmt.Sprintf(".case [%s] [%s]", strings.Join(bs, ", "), body))
+	}
+	return ".mapLoop [" + strings.Join(cases, ",\n    ") + "]"
 }
 
 func (c *skCtx) ret(r *ast.ReturnStmt) string {
@@ -880,7 +986,7 @@ func codecSkeletons(repo string) string {
 		}
 	}
 	b.WriteString("/-! ### msgp-generated tuple decoders (named results, bare returns) -/\n\n")
-	for _, ty := range []string{"Entry", "EntryExt", "Ping", "Pong"} {
+	for _, ty := range []string{"Entry", "EntryExt", "Ping", "Pong", "MessageOptions", "AckMessage", "HeloOpts", "Helo"} {
 		ft := structFields(files, fset, ty)
 		for _, m := range []string{"UnmarshalMsg", "DecodeMsg"} {
 			name := ty + "_" + m
@@ -891,7 +997,7 @@ func codecSkeletons(repo string) string {
 				continue
 			}
 			c := &skCtx{fset: fset, recv: recvNameOf(fd), in: fd.Type.Params.List[0].Names[0].Name, stream: m == "DecodeMsg", ftypes: ft, top: true,
-				named: true, resName: fd.Type.Results.List[0].Names[0].Name}
+				named: true, resName: fd.Type.Results.List[0].Names[0].Name, deep: true}
 			body := c.block(fd.Body.List)
 			fmt.Fprintf(&b, "/-- `(*%s).%s`, %s -/\ndef %s : List Stmt := [\n  %s]\n\n", ty, m,
 				fset.Position(fd.Pos()).String()[len(repo)+1:], name, strings.Join(body, ",\n  "))
